@@ -22,11 +22,14 @@ Bases   == {"on", "off", "local"}
 WordLen(b) == CASE b = "on" -> 2 [] b = "off" -> 3 [] b = "local" -> 5
 DateLen == 10
 FullLen(b) == WordLen(b) + 1 + DateLen
-Garbage == {"spaces", "padded", "crlf", "junkdate", "twoblank", "offjunk", "longdate", "longword", "utf8", "newline", "nul", "nuldate", "dateonly"}
+Garbage == {"spaces", "padded", "crlf", "junkdate", "twoblank", "offjunk", "longdate", "longword", "utf8", "newline", "nul", "nuldate", "dateonly", "isdir"}
+(* the week-end file local/weekends: one digit, the day of the week on which counter files expire *)
+WGarbage == {"w:valid", "w:nl", "w:empty", "w:spaces", "w:isdir", "w:seven", "w:nine", "w:letter", "w:minus", "w:utf8", "w:long"}
 
-Prefix(b, c) == [kind |-> "prefix", base |-> b, cut |-> c, g |-> "-"]
-Junk(x)      == [kind |-> "garbage", base |-> "-", cut |-> 0, g |-> x]
-AllContents == {p \in {Prefix(b, c) : b \in Bases, c \in 0..18} : p.cut <= FullLen(p.base)} \cup {Junk(x) : x \in Garbage}
+Prefix(b, c) == [file |-> "mode", kind |-> "prefix", base |-> b, cut |-> c, g |-> "-"]
+Junk(x)      == [file |-> "mode", kind |-> "garbage", base |-> "-", cut |-> 0, g |-> x]
+WJunk(x)     == [file |-> "weekends", kind |-> "garbage", base |-> "-", cut |-> 0, g |-> x]
+AllContents == {p \in {Prefix(b, c) : b \in Bases, c \in 0..18} : p.cut <= FullLen(p.base)} \cup {Junk(x) : x \in Garbage} \cup {WJunk(x) : x \in WGarbage}
 
 (* a word that is none of the three modes *)
 Other == "?"
@@ -50,14 +53,22 @@ Abstract(c) ==
            [] c.g = "nuldate"  -> Text("on", BadDate, FALSE)
            [] c.g = "utf8"     -> Text(Other, TheDay, FALSE)
            [] c.g = "nul"      -> Text(Other, TheDay, FALSE)
+           [] c.g = "isdir"    -> Unreadable                                \* the path is a directory
            [] OTHER            -> Text(Other, NoDate, FALSE)                \* longword, newline, dateonly
 
 EntryPoints == {"counter", "upload"}
 (* counter: open + Add + Add + Read on an existing count file; upload: upload.Run  *)
 (* over expired count files whose data is younger than the opt-in date             *)
+(* the week-end file: "reads the weekends file, creating one if none exists"; an empty one or one  *)
+(* that can neither be read nor created is an error (the file is parked); a digit names the day;   *)
+(* about other bytes the documentation only says the value is made legal                            *)
+WeekendsOpen(c) == CASE c.g \in {"w:valid", "w:nl"} -> "opens"
+                     [] c.g \in {"w:empty", "w:spaces", "w:isdir"} -> "parks"
+                     [] OTHER -> "any"
 Expected(c, ep) ==
     LET m == EffMode(Abstract(c)) IN
-    IF ep = "counter" THEN [open |-> IF m = "off" THEN "parks" ELSE "opens", uploads |-> FALSE]
+    IF c.file = "weekends" THEN [open |-> WeekendsOpen(c), uploads |-> FALSE]
+    ELSE IF ep = "counter" THEN [open |-> IF m = "off" THEN "parks" ELSE "opens", uploads |-> FALSE]
     ELSE [open |-> "-", uploads |-> m = "on"]
 
 (* observed outcome o = [ret, open, persisted (BOOLEAN), others (BOOLEAN), uploads (BOOLEAN)] *)
@@ -65,31 +76,34 @@ Safety(o) == IF o.ret # "ok" THEN o.ret ELSE IF o.others THEN "other-data-change
 ClassCheck(c, ep, o) ==
     LET e == Expected(c, ep) IN
     IF o.ret # "ok" THEN "ok"
-    ELSE IF ep = "counter" /\ o.open # e.open THEN "mode-open-class"
-    ELSE IF ep = "counter" /\ o.persisted # (e.open = "opens") THEN "mode-persist-class"
+    ELSE IF ep = "counter" /\ o.open \notin {"opens", "parks"} THEN "mode-open-class"
+    ELSE IF ep = "counter" /\ e.open # "any" /\ o.open # e.open THEN "mode-open-class"
+    ELSE IF ep = "counter" /\ o.persisted # (o.open = "opens") THEN "mode-persist-class"
     ELSE IF ep = "upload" /\ o.uploads # e.uploads THEN "mode-upload-class"
     ELSE "ok"
 Verdict(c, ep, o) == IF Safety(o) # "ok" THEN Safety(o) ELSE ClassCheck(c, ep, o)
 
 VARIABLES content, ep, exp
 vars == <<content, ep, exp>>
-Init == content \in AllContents /\ ep \in EntryPoints /\ exp = Expected(content, ep)
+Init == /\ content \in AllContents
+        /\ ep \in (IF content.file = "weekends" THEN {"counter"} ELSE EntryPoints)    \* the uploader does not read the week-end file
+        /\ exp = Expected(content, ep)
 Next == UNCHANGED vars
 Spec == Init /\ [][Next]_vars
 
 (* ---- sanity theorems ------------------------------------------------------------ *)
-WellTyped == IsModeFile(Abstract(content))
+WellTyped == content.file = "mode" => IsModeFile(Abstract(content))
 (* a file cut anywhere inside its date (or right after the word) keeps the mode of the whole file *)
 CutInDateKeepsMode ==
-    (content.kind = "prefix" /\ content.cut >= WordLen(content.base)) =>
+    (content.file = "mode" /\ content.kind = "prefix" /\ content.cut >= WordLen(content.base)) =>
         EffMode(Abstract(content)) = EffMode(Abstract(Prefix(content.base, FullLen(content.base))))
 (* a file cut inside its word is never "on" and never "off" *)
 CutInWordIsLocal == (content.kind = "prefix" /\ content.cut < WordLen(content.base)) => EffMode(Abstract(content)) = "local"
 (* the uploader uploads only for contents whose word is exactly on; counting stops only for exactly off *)
 OnlyOnUploads == (ep = "upload" /\ exp.uploads) => ExactlyOn(Abstract(content))
-OnlyOffParks  == (ep = "counter" /\ exp.open = "parks") => ExactlyOff(Abstract(content))
+OnlyOffParks  == (content.file = "mode" /\ ep = "counter" /\ exp.open = "parks") => ExactlyOff(Abstract(content))
 (* the opt-in date is known only for whole dates *)
-DateOnlyWhenWhole == OptIn(Abstract(content)) # NoDate =>
+DateOnlyWhenWhole == (content.file = "mode" /\ OptIn(Abstract(content)) # NoDate) =>
                         (content.kind = "garbage" \/ content.cut = FullLen(content.base))
 Sane == WellTyped /\ CutInDateKeepsMode /\ CutInWordIsLocal /\ OnlyOnUploads /\ OnlyOffParks /\ DateOnlyWhenWhole
 =============================================================================
